@@ -2,7 +2,7 @@
 # usage: runall.sh <quick|thorough> [seed] [props...]   -- runs the checks sequentially and prints one line each
 TIER=${1:-quick}; SEED=${2:-1}; shift; shift
 PROPS=${@:-C01 C02 C03 C04 C05 C06 C07 C08 C09 C10 C11 C12 C13 C14 C15 C16 C17 C18 C19 C20}
-cd /verif
+cd "$(dirname "$0")/.."
 for p in $PROPS; do
   s=$(date +%s)
   out=$(VERIF_SEED=$SEED ./check $p $TIER 2>&1); rc=$?
